@@ -232,4 +232,68 @@ example : WFT [.lit [112, 101, 116, 115], .ph [105, 100]] ∧
   simp only [List.mem_cons, List.not_mem_nil, or_false] at hs
   rcases hs with rfl | rfl <;> decide
 
+
+/-- **C01 for simple templates, in the property's own words.**  If an operation runs, its method is
+the request's (upper-cased), its path template — under the base path — is instantiated segment by
+segment by the request's cleaned, still percent-encoded path, and the handler's path parameters are
+exactly the percent-decoded texts that instantiate the placeholders, by name. -/
+theorem simple_ran_params (api : Api) (m p : Bytes) (i : Nat) (ps : List (Bytes × Bytes))
+    (hran : dispatch api m p = .ran i ps) (segs : List SSeg) (hw : WFT segs) (hne : segs ≠ [])
+    (hfp : ∀ op, api.ops[i]? = some op → fullPath api op = renderT segs)
+    (hroot : GoPath.isRooted p = true) :
+    ∃ op raws, api.ops[i]? = some op ∧ toUpper op.method = toUpper m ∧
+      instantiates (fullPath api op) (GoPath.clean p) = some raws ∧
+      ps = raws.map (fun kv => (kv.1, decode kv.2)) := by
+  obtain ⟨op, names, vals, hop, hm, _, hcp, hspec⟩ := ran_sound api m p i ps hran
+  have hfp' := hfp op hop
+  obtain ⟨hclean, hsegs⟩ := clean_rooted_renderP p hroot
+  -- the record that was found is this operation's converted template
+  simp only [C05.specLookup, List.any_eq_true, Bool.and_eq_true, beq_iff_eq] at hspec
+  obtain ⟨kv, hkv, hv, hfound⟩ := hspec
+  obtain ⟨op', hop', _, _, hkey⟩ := mem_recordsFor hkv
+  rw [hv, hop] at hop'
+  simp only [Option.some.injEq] at hop'
+  subst hop'
+  rw [hfp', convert_renderT segs hw] at hkey
+  -- bridge facts for this template and path
+  have hbridge := matchKey_keyOf segs hw (pathSegs p) hsegs
+  have hinst := instantiates_simple segs hw hne (pathSegs p) hsegs
+  rw [hfp'] at hcp
+  refine ⟨op, ?_⟩
+  rw [hfp', hclean, hinst]
+  unfold C05.foundOk at hfound
+  rw [hkey, hclean] at hfound
+  by_cases hpk : C05.isParamKey (keyOf segs) = true
+  · -- parameterised key
+    simp only [hpk, Bool.not_true, Bool.false_eq_true, ↓reduceIte, Bool.and_eq_true, beq_iff_eq] at hfound
+    obtain ⟨⟨⟨hmk, hnames⟩, _⟩, _⟩ := hfound
+    have hmk' : C05.matchKey false (tailKey segs) (renderP (pathSegs p)) = some vals := hmk
+    rw [hbridge] at hmk'
+    simp only [Option.map_eq_some_iff] at hmk'
+    obtain ⟨raws, hraws, hvals⟩ := hmk'
+    have hnm : names = phNames segs := by
+      have : names = C05.namesOf (tailKey segs) := hnames
+      rw [this, namesOf_tailKey segs hw]
+    have hfst := matchSegs_names segs (pathSegs p) raws hraws
+    rw [collectParams_simple segs hw names vals (by rw [hnm]; exact phNames_plain segs hw)] at hcp
+    simp only [Option.some.injEq] at hcp
+    refine ⟨raws, hop, hm, hraws, ?_⟩
+    rw [← hcp, hnm, ← hfst, ← hvals, List.map_map]
+    exact zip_map_map (·.1) (fun kv => decode kv.2) raws
+  · -- static key: the cleaned path is the template itself
+    have hpk' : C05.isParamKey (keyOf segs) = false := by simpa using hpk
+    simp only [hpk', Bool.not_false, ↓reduceIte, Bool.and_eq_true, beq_iff_eq, List.isEmpty_iff] at hfound
+    obtain ⟨⟨hk, hn0⟩, hv0⟩ := hfound
+    subst hn0; subst hv0
+    have hself := matchKey_self false (keyOf segs) (keyOf_static_bytes segs hw hpk')
+    have : C05.matchKey false (tailKey segs) (renderP (pathSegs p)) = some [] := by
+      rw [← hk]; exact hself
+    rw [hbridge] at this
+    simp only [Option.map_eq_some_iff] at this
+    obtain ⟨raws, hraws, hnil⟩ := this
+    have hr0 : raws = [] := by simpa using hnil
+    subst hr0
+    simp only [collectParams, Option.some.injEq] at hcp
+    exact ⟨[], hop, hm, hraws, by rw [← hcp]; rfl⟩
+
 end RtVerif.C01
